@@ -14,6 +14,9 @@ def evaluate(case, res):
             if m is None:
                 continue
             res.evals += 1
+            if exp is None:
+                res.count('filter-meaning-not-modelled(skipped)')
+                continue
             if exp:
                 w.changes['shown'] += 1
             else:
@@ -27,7 +30,8 @@ def evaluate(case, res):
                 res.bad('shown-line-is-not-the-message', '%r, the message renders as %r' % (shown, session.render_shown([m])))
         elif seg.kind == 'cmd':
             before = len(s.ctl.all_messages)
-            k = w.on_cmd_state(seg.text)
+            it = s.io.items[seg.index]
+            k = w.on_cmd_state(seg.text, it[3] if len(it) > 3 else None)
             if [l for l in seg.out_lines() if session.MSG_LINE.match(l)] and not k.startswith('list'):
                 res.bad('command-prints-message-lines', '%r printed %r' % (seg.text, seg.out_lines()[:3]))
     # everything is recorded, shown or not, in arrival order
@@ -84,17 +88,139 @@ class Sessions(Stage):
         return res
 
 
+class SinkSessions(Stage):
+    """the same property on the connection-id interface (what GDB mode drives): connections are opened, closed and their
+    ids re-used while messages stream in and the selection / filter change"""
+    name = 'sink-sessions'
+
+    def examples(self, tier):
+        return 200 if tier == 'quick' else 14 * 1500
+
+    def gen(self, d, tier):
+        ids = ['x', 'y', 'gdb_conn:0x55']
+        ops, is_open = [], set()
+        for _ in range(d.int(4, 40)):
+            k = d.weighted([(3, 'open'), (2, 'close'), (9, 'message'), (3, 'select'), (2, 'filter')])
+            if k == 'message' and is_open:
+                ops.append(['message', d.choice(sorted(is_open)), d.choice(['sync', 'done', 'get_registry', 'delete_id'])])
+            elif k == 'close' and is_open:
+                c = d.choice(sorted(is_open))
+                is_open.discard(c)
+                ops.append(['close', c])
+            elif k == 'select':
+                ops.append(['cmd', 'connection ' + d.choice(['A', 'B', 'C', 'D', 'all', 'all', 'Q'])])
+            elif k == 'filter':
+                ops.append(['cmd', 'filter !'])
+                ops.append(['cmd', 'filter ' + d.choice(['*', 'wl_display', '.sync', '.done, .delete_id', 'wl_callback', 'B:', '* ! .sync'])])
+            else:
+                c = d.choice(ids)
+                is_open.add(c)
+                ops.append(['open', c, d.choice([None, True, False])])
+        return dict(ops=ops)
+
+    def execute(self, case):
+        from core import ConnectionManager, matcher, wl
+        from core.output import Output, stream
+        from frontends.tui import Controller
+        from backends.libwayland_debug_output import parse
+        from .. import model
+        env.reset_globals()
+        res = Result()
+        res.evals = 0
+        out = stream.String()
+        cm = ConnectionManager()
+        ctl = Controller(Output(False, True, out, stream.String()), cm, matcher.always, matcher.never)
+        names, allc, opened = {}, [], {}      # id -> model connection (open); all model connections
+        sel, flt, never = None, matcher.always, False
+        t = 0
+        nxt = {}
+        shown = hidden = 0
+        reopen = False
+        closed_ids = set()
+        for op in case['ops']:
+            n0 = len(out.buffer)
+            t += 250000
+            if op[0] == 'open':
+                if op[1] in closed_ids:
+                    reopen = True
+                mc = dict(name=model.letters(len(allc), caps=True), msgs=[], next=2)
+                opened[op[1]] = mc
+                allc.append(mc)
+                cm.open_connection(t / 1e6, op[1], op[2])
+            elif op[0] == 'close':
+                opened.pop(op[1], None)
+                closed_ids.add(op[1])
+                cm.close_connection(t / 1e6, op[1])
+            elif op[0] == 'cmd':
+                ctl.process_command(op[1])
+                a = op[1].split(' ', 1)[1]
+                if op[1].startswith('connection'):
+                    if a == 'all':
+                        sel = None
+                    else:
+                        for mc in allc:
+                            if mc['name'] == a:
+                                sel = a
+                elif a == '!':
+                    never = True
+                else:
+                    flt, never = matcher.parse(a).simplify(), False
+            else:
+                mc = opened[op[1]]
+                kind = op[2]
+                ts = '[%d.%03d]' % (t // 1000, t % 1000)
+                cbs = mc.setdefault('cbs', [])
+                if kind == 'sync' or (kind in ('done', 'delete_id') and not cbs):
+                    line = '%s  -> wl_display@1.sync(new id wl_callback@%d)' % (ts, mc['next'])
+                    cbs.append(mc['next'])
+                    mc['next'] += 1
+                elif kind == 'done':
+                    line = '%s wl_callback@%d.done(7)' % (ts, cbs[-1])
+                elif kind == 'delete_id':
+                    line = '%s wl_display@1.delete_id(%d)' % (ts, cbs.pop())
+                else:
+                    line = '%s  -> wl_display@1.get_registry(new id wl_registry@%d)' % (ts, mc['next'])
+                    mc['next'] += 1
+                _, msg = parse.message(line)
+                cm.message(op[1], msg)
+                mc['msgs'].append(msg)
+                res.evals += 1
+                lines = [l for l in out.buffer[n0:].split('\n')[:-1] if session.MSG_LINE.match(l)]
+                exp = (sel is None or sel == mc['name']) and not never and flt.matches(msg)
+                if exp: shown += 1
+                else: hidden += 1
+                if len(lines) > 1:
+                    res.bad('sink:shown-more-than-once', repr(lines))
+                elif bool(lines) != exp:
+                    res.bad('sink:shown-but-not-selected' if lines else 'sink:matching-message-not-shown',
+                            '%r on connection %s (id %s) %s; selection %r' % (line, mc['name'], op[1], 'shown' if lines else 'not shown', sel))
+                elif lines and session.MSG_LINE.match(lines[0]).group(2) != mc['name']:
+                    res.bad('sink:shown-under-other-connection', '%r, its connection is %s' % (lines[0], mc['name']))
+        # the record: every connection holds exactly its own messages, the global record all of them
+        real = list(cm.connections())
+        if len(real) == len(allc):
+            for c, mc in zip(real, allc):
+                if list(c.messages()) != mc['msgs']:
+                    res.bad('sink:connection-record', '%s records %d messages, %d arrived on it' % (mc['name'], len(c.messages()), len(mc['msgs'])))
+        if len(ctl.all_messages) != sum(len(mc['msgs']) for mc in allc):
+            res.bad('sink:record-incomplete', '%d recorded, %d arrived' % (len(ctl.all_messages), sum(len(mc['msgs']) for mc in allc)))
+        res.nontrivial = reopen and shown >= 1 and hidden >= 1
+        if reopen: res.label('id-reopened')
+        res.sample = case['ops'][:16]
+        return res
+
+
 class C06(Prop):
     id = 'C06'
     rule = ('a generated multi-connection history streams through the real pipeline from a scripted reader; between lines the script issues '
             'filter replacements (`filter !` + `filter <generated matcher>`), connection selections, listings, breakpoints and unknown commands; '
             'for every input line exactly one message line is expected iff the selection admits its connection and the current filter '
             '(independently parsed) matches; afterwards the record (all_messages, Connection.messages(), `list *`) must hold every message in '
-            'arrival order. non-trivial = >= 1 filter change and >= 1 selection change mid-stream with >= 1 message shown and >= 1 hidden; '
+            'arrival order. sink-sessions: the same on the connection-id interface with connections closed and their ids re-used. non-trivial = >= 1 filter change and >= 1 selection change mid-stream with >= 1 message shown and >= 1 hidden; '
             'distinct by SHA-1 of the case.')
     assumptions = ['matcher meaning is C05\'s business: expectations use an independently parsed copy of the same matcher text',
                    'filters are replaced via `filter !` then `filter <m>` (accumulation is C12\'s business)']
-    stages = [Sessions()]
+    stages = [Sessions(), SinkSessions()]
 
 
 PROP = C06()
